@@ -180,7 +180,7 @@ func init() {
 		Assumptions:  []string{"required options carry no default/env here (whether a default supplies a required option is not settled by the statement)", "markers are long option names / positional names chosen so that none is a substring of another"},
 		RequiredHits: []string{"clean", "required-fault|options", "required-fault|positionals"},
 		Bound:        [2]string{"unit sequences <= 3", "unit sequences <= 4"},
-		BudgetS:      [2]int{100, 1500},
+		BudgetS:      [2]int{170, 1500},
 	})
 }
 
